@@ -3822,7 +3822,9 @@ func (e *enterFunc) exec(vm *vm) {
 	ea := 0
 	if e.argsToStash {
 		offset := vm.args - int(e.numArgs)
-		copy(stash.values, vm.stack[sp-vm.args:sp])
+		// only the formal parameters live in the stash: surplus arguments must not spill into the slots
+		// of the function's other bindings (which start out uninitialised)
+		copy(stash.values[:e.numArgs], vm.stack[sp-vm.args:sp])
 		if offset > 0 {
 			vm.stash.extraArgs = make([]Value, offset)
 			copy(stash.extraArgs, vm.stack[sp-offset:])
